@@ -197,7 +197,16 @@ def _worker(prop: str, tier: str, w: int, nworkers: int, seed: int, budget: int,
         timed_out = False
         while (remaining > 0 and len(found) < MAX_ROOT_CAUSES and not timed_out
                and time.monotonic() - t_start < time_budget):
-            st8: dict[str, Any] = {"target": None, "t_fail": None, "seen_fail": {}, "last": None, "gen": 0}
+            st8: dict[str, Any] = {"target": None, "t_fail": None, "seen_fail": {}, "last": None, "gen": 0, "in_case": False}
+
+            def on_alarm(signum: int, frame: Any) -> None:
+                # Hypothesis' shrinker can spend minutes without calling the test function at all
+                # (replaying its cache): the cap on shrinking must not depend on body() being entered.
+                # Never raise into a running case (an event loop may be active): body() looks itself.
+                if st8["in_case"] or st8["target"] is None:
+                    return
+                if time.monotonic() - st8["t_fail"] > shrink_cap:
+                    raise _StopShrink()
 
             def body(case: Any) -> None:
                 generating = st8["target"] is None
@@ -210,7 +219,11 @@ def _worker(prop: str, tier: str, w: int, nworkers: int, seed: int, budget: int,
                     # shrink budget used: leave Hypothesis with the smallest failing case seen so
                     # far (its shrinker only ever moves to smaller cases); harness.minimize goes on
                     raise _StopShrink()
-                out = run_one(eng, case, prop)
+                st8["in_case"] = True
+                try:
+                    out = run_one(eng, case, prop)
+                finally:
+                    st8["in_case"] = False
                 stats.record(case, out, generating)
                 if generating:
                     st8["gen"] += 1
@@ -241,8 +254,13 @@ def _worker(prop: str, tier: str, w: int, nworkers: int, seed: int, budget: int,
                 verbosity=Verbosity.quiet,
             )(test)
             test = hypothesis.seed(seed * 1009 + w + 7919 * rnd)(test)
+            _signal.signal(_signal.SIGALRM, on_alarm)
+            _signal.setitimer(_signal.ITIMER_REAL, 2.0, 2.0)
             try:
-                test()
+                try:
+                    test()
+                finally:
+                    _signal.setitimer(_signal.ITIMER_REAL, 0)
             except (_Violation, _StopShrink):
                 pass
             except _Stop:
